@@ -37,11 +37,20 @@ static int viol_once(const char *key){ static char seen[40][64]; static int n=0;
 opus_int __real_silk_VAD_GetSA_Q8_sse4_1(silk_encoder_state *psEncC,const opus_int16 pIn[]);
 opus_int __wrap_silk_VAD_GetSA_Q8_sse4_1(silk_encoder_state *psEncC,const opus_int16 pIn[]){ static silk_encoder_state cp; memcpy(&cp,psEncC,sizeof cp); opus_int a=__real_silk_VAD_GetSA_Q8_sse4_1(psEncC,pIn); opus_int b=silk_VAD_GetSA_Q8_c(&cp,pIn); KCOUNT("silk_VAD_GetSA_Q8_sse4_1");
   if(a!=b||memcmp(&cp,psEncC,sizeof cp)){ if(viol_once("vad")) vc_viol("kernel:silk_VAD_GetSA_Q8_sse4_1","SSE4.1 VAD differs from silk_VAD_GetSA_Q8_c: return %d vs %d, speech_activity_Q8 %d vs %d, input_tilt_Q15 %d vs %d (fs_kHz %d frame %d)",a,b,psEncC->speech_activity_Q8,cp.speech_activity_Q8,psEncC->input_tilt_Q15,cp.input_tilt_Q15,psEncC->fs_kHz,psEncC->frame_length); } return a; }
+static const char *nsq_field(const silk_nsq_state *a,const silk_nsq_state *b,int *idx){ *idx=-1;
+#define NF(f) if(memcmp(&a->f,&b->f,sizeof a->f)){ const char *x=(const char*)&a->f,*y=(const char*)&b->f; for(size_t q=0;q<sizeof a->f;q++) if(x[q]!=y[q]){ *idx=(int)q; break; } return #f; }
+  NF(xq) NF(sLTP_shp_Q14) NF(sLPC_Q14) NF(sAR2_Q14) NF(sLF_AR_shp_Q14) NF(sDiff_shp_Q14) NF(lagPrev) NF(sLTP_buf_idx) NF(sLTP_shp_buf_idx) NF(rand_seed) NF(prev_gain_Q16) NF(rewhite_flag)
+#undef NF
+  return "padding"; }
 #define NSQ_ARGS const silk_encoder_state *psEncC,silk_nsq_state *NSQ,SideInfoIndices *psIndices,const opus_int16 x16[],opus_int8 pulses[],const opus_int16 *PredCoef_Q12,const opus_int16 LTPCoef_Q14[],const opus_int16 AR_Q13[],const opus_int HarmShapeGain_Q14[],const opus_int Tilt_Q14[],const opus_int32 LF_shp_Q14[],const opus_int32 Gains_Q16[],const opus_int pitchL[],const opus_int Lambda_Q10,const opus_int LTP_scale_Q14
 #define NSQ_PASS(n,i,p) psEncC,n,i,x16,p,PredCoef_Q12,LTPCoef_Q14,AR_Q13,HarmShapeGain_Q14,Tilt_Q14,LF_shp_Q14,Gains_Q16,pitchL,Lambda_Q10,LTP_scale_Q14
 #define NSQ_WRAPPER(simd,cfn,label) void __real_##simd(NSQ_ARGS); void __wrap_##simd(NSQ_ARGS){ static silk_nsq_state n2; SideInfoIndices i2; static opus_int8 p2[MAX_FRAME_LENGTH+16]; memcpy(&n2,NSQ,sizeof n2); i2=*psIndices; int fl=psEncC->frame_length; memset(p2,0x55,sizeof p2); \
   __real_##simd(NSQ_PASS(NSQ,psIndices,pulses)); cfn(NSQ_PASS(&n2,&i2,p2)); KCOUNT(label); \
-  if(memcmp(p2,pulses,fl)||memcmp(&n2,NSQ,sizeof n2)||memcmp(&i2,psIndices,sizeof i2)){ if(viol_once(label)){ int fp=-1; for(int q=0;q<fl;q++) if(p2[q]!=pulses[q]){ fp=q; break; } vc_viol("kernel:" label,label " differs from " #cfn ": first differing pulse %d, state %s, indices %s (fs_kHz %d, frame %d, nb_subfr %d, nStatesDelayedDecision %d, signalType %d)",fp,memcmp(&n2,NSQ,sizeof n2)?"differs":"equal",memcmp(&i2,psIndices,sizeof i2)?"differ":"equal",psEncC->fs_kHz,fl,psEncC->nb_subfr,psEncC->nStatesDelayedDecision,psIndices->signalType); } } }
+  if(memcmp(p2,pulses,fl)||memcmp(&n2,NSQ,sizeof n2)||memcmp(&i2,psIndices,sizeof i2)){ \
+    /* one signature is classified separately: everything equal except xq samples that saturate with opposite signs (the 32-bit product of silk_SMULWW wraps in C) */ \
+    int only_xq=!memcmp(p2,pulses,fl)&&!memcmp(&i2,psIndices,sizeof i2), nx=0; if(only_xq){ static silk_nsq_state t; memcpy(&t,&n2,sizeof t); for(int q=0;q<2*MAX_FRAME_LENGTH;q++) if(t.xq[q]!=NSQ->xq[q]){ nx++; if(!((t.xq[q]==-32768&&NSQ->xq[q]==32767)||(t.xq[q]==32767&&NSQ->xq[q]==-32768))) only_xq=0; t.xq[q]=NSQ->xq[q]; } if(memcmp(&t,NSQ,sizeof t)) only_xq=0; } \
+    if(only_xq&&nx>0){ if(viol_once(label ":xq")) vc_viol("kernel:" label ":xq-saturates-with-opposite-sign",label " and " #cfn " produce the same pulses, indices and state except %d reconstructed samples xq[] that saturate to +32767 in one and -32768 in the other (fs_kHz %d, frame %d, nStatesDelayedDecision %d, signalType %d, gains %d %d %d %d)",nx,psEncC->fs_kHz,fl,psEncC->nStatesDelayedDecision,psIndices->signalType,Gains_Q16[0],Gains_Q16[1],Gains_Q16[2],Gains_Q16[3]); } \
+    else if(viol_once(label)){ int fp=-1, fidx=-1; const char *fname=nsq_field(&n2,NSQ,&fidx); for(int q=0;q<fl;q++) if(p2[q]!=pulses[q]){ fp=q; break; } vc_viol("kernel:" label,label " differs from " #cfn ": first differing pulse %d, state %s (first field %s, byte %d), indices %s (fs_kHz %d, frame %d, nb_subfr %d, nStatesDelayedDecision %d, signalType %d)",fp,memcmp(&n2,NSQ,sizeof n2)?"differs":"equal",fname,fidx,memcmp(&i2,psIndices,sizeof i2)?"differ":"equal",psEncC->fs_kHz,fl,psEncC->nb_subfr,psEncC->nStatesDelayedDecision,psIndices->signalType); } } }
 NSQ_WRAPPER(silk_NSQ_sse4_1,silk_NSQ_c,"silk_NSQ_sse4_1")
 NSQ_WRAPPER(silk_NSQ_del_dec_sse4_1,silk_NSQ_del_dec_c,"silk_NSQ_del_dec_sse4_1")
 NSQ_WRAPPER(silk_NSQ_del_dec_avx2,silk_NSQ_del_dec_c,"silk_NSQ_del_dec_avx2")
